@@ -28,6 +28,14 @@ def mode_score(p):
         rs = np.random.RandomState(seed)
         C, D, M, P = rs.randint(1, 4), rs.randint(1, 4), rs.randint(1, 4), rs.randint(1, 4)
         ubm = mk_gmm(C, D, seed)
+        if seed % 3 == 1:
+            # a UBM whose variance floor is ACTIVE: variances assigned below the floor are clamped by the machine
+            ubm.variance_thresholds = 0.8
+            ubm.variances = rs.uniform(0.05, 2.0, size=(C, D))
+        elif seed % 3 == 2:
+            # ... or whose floor was raised after the variances were set
+            ubm.variances = rs.uniform(0.05, 2.0, size=(C, D))
+            ubm.variance_thresholds = rs.uniform(0.3, 1.0, size=(C, D))
         models = [mk_gmm(C, D, seed + 1 + k) for k in range(M)]
         stats = []
         for k in range(P):
@@ -68,6 +76,8 @@ def mode_score(p):
         e = 1e-6
         def ll(eps):
             t = mk_gmm(C, D, seed)
+            t.variance_thresholds = ubm.variance_thresholds
+            t.variances, t.weights = ubm.variances.copy(), ubm.weights.copy()
             t.means = ubm.means + eps * (models[0].means - ubm.means)
             return float(np.sum(t.log_likelihood(x)))
         fd = (ll(e) - ll(-e)) / (2 * e)
